@@ -350,8 +350,8 @@ func checkCase(c Case) (Outcome, error) {
 	var r res
 	select {
 	case r = <-ch:
-	case <-time.After(20 * time.Second):
-		return out, fmt.Errorf("PlanChanges did not terminate within 20s (cycle handling loops?)")
+	case <-time.After(300 * time.Second): // planning takes microseconds; minutes leave room for a starved machine
+		return out, fmt.Errorf("PlanChanges did not terminate within 300s (cycle handling loops?)")
 	}
 	if r.err != nil {
 		return out, fmt.Errorf("PlanChanges failed: %v", r.err)
